@@ -236,7 +236,7 @@ func (w *syWorld) exec(op string, n []int) (string, bool) {
 }
 
 // ---------------------------------------------------------------------------------------------
-// sub-command `systress SEED ROUNDS`: concurrent runs on the real wrappers, recording histories
+// sub-command `systress SEED ROUNDS [noearlyclose]`: concurrent runs on the real wrappers, recording histories
 // of unique tokens. One history per line on stdout:
 //
 //	H <scenario> <params> | rec;rec;...
@@ -284,9 +284,13 @@ func syncStress(args []string) int {
 			rounds = v
 		}
 	}
+	// third argument "noearlyclose": producers never close while others still push. Used under the Go
+	// race detector, which reports a send racing with a close by design — the wrappers support exactly
+	// that (push on a closed channel is an Elk error), so it is not a finding.
+	earlyClose := !(len(args) > 2 && args[2] == "noearlyclose")
 	rng := rand.New(rand.NewSource(seed))
 	for r := 0; r < rounds; r++ {
-		stressChannel(rng, r%2 == 1)
+		stressChannel(rng, r%2 == 1, earlyClose)
 		stressMutex(rng)
 		stressRW(rng)
 		stressOnceWG(rng)
@@ -294,7 +298,7 @@ func syncStress(args []string) int {
 	return 0
 }
 
-func stressChannel(rng *rand.Rand, native bool) {
+func stressChannel(rng *rand.Rand, native bool, earlyClose bool) {
 	capacity := []int{0, 0, 1, 2, 5}[rng.Intn(5)]
 	producers := 1 + rng.Intn(3)
 	consumers := 1 + rng.Intn(3)
@@ -321,7 +325,7 @@ func stressChannel(rng *rand.Rand, native bool) {
 				h.add("pe %d 0 %d %s", a, tok, errName(err))
 			}
 			// sometimes a producer closes early or twice
-			if r.Intn(6) == 0 {
+			if earlyClose && r.Intn(6) == 0 {
 				closers.Add(1)
 				h.add("cb %d 0", a)
 				err := ch.Close()
